@@ -222,6 +222,22 @@ pub fn c01_check(ctx: &Ctx, st: &mut Local, eng: &str, idx: u64, f: &[u8], with_
             }
         }
     }
+    // the log level is an argument of expand_zlib_chunks too: with logging on (output goes to stdout) the call must
+    // neither panic nor return anything else; every 4th small file
+    if idx % 4 == 0 && f.len() <= 4000 {
+        match caught(|| s.expand_log(f, 1)) {
+            Err(p) => {
+                st.violation(ctx.viol(eng, idx, "expand-panic-with-logging", Some(p.loc.clone()), format!("expand_zlib_chunks(.., loglevel 1) panicked: {}", p.msg), f));
+                return None;
+            }
+            Ok(Ok(e1)) if e1 == e => {}
+            other => {
+                st.violation(ctx.viol(eng, idx, "expand-differs-with-logging", None,
+                    format!("expand_zlib_chunks(.., loglevel 1) gives {:?} instead of the {} byte container of loglevel 0", other.map(|r| r.map(|v| v.len()).map_err(|er| first_line(&er.msg))).map_err(|p| p.loc), e.len()), f));
+                return None;
+            }
+        }
+    }
     if with_zstd {
         match caught(|| s.compress_zstd(f)) {
             Ok(Ok(z)) => match caught(|| s.decompress_zstd(&z, e.len() + 16)) {
